@@ -73,6 +73,29 @@ def lock():
 
 # ---------------------------------------------------------------- tie A: regenerate
 
+# which properties rest on which fact group of tools/extract (a group that is missing here concerns
+# every property)
+_FRAMING = ['C01', 'C02', 'C03', 'C04', 'C06', 'C07', 'C09', 'C10', 'C18']
+FACT_DEPS = {
+    'noParamsWarning': ['C20'],
+    'endSequenceByteSlice': _FRAMING,
+    'defaultConfig': ['C11', 'C12'],
+    'escape': ['C01', 'C02', 'C04', 'C18', 'C19'],
+    'addFmt': _FRAMING,
+    'cleanFmt': ['C07', 'C09', 'C10'],
+    'idFmt': ['C01', 'C03', 'C06', 'C07', 'C09', 'C10', 'C17'],
+    'occFmt': ['C07', 'C08', 'C09', 'C10'],
+    'matcherErrFmt': ['C17'],
+    'getTestID': ['C07', 'C08', 'C09', 'C10'],
+    'skipSep': ['C08', 'C09'],
+    'constructFilename': ['C07', 'C11', 'C12', 'C19'],
+    'standaloneJSONExt': ['C11', 'C12', 'C14', 'C19'],
+    'prettyOptions': ['C12', 'C14'],
+    'sjsonOptions': ['C15', 'C16'],
+    'diffContext': ['C02', 'C13'],
+    'structural': ['C05', 'C06', 'C12', 'C15', 'C20'],
+}
+
 def regenerate(ctx):
     gen = LEAN + '/GoSnaps/Generated'
     exe = BUILD + '/extract'
@@ -102,6 +125,12 @@ def regenerate(ctx):
         ctx.add_obl('A.extractor-selftest (mutated sources are noticed)', rc == 0, out[-1500:] if rc else '')
     ctx.facts = json.load(open(gen + '/facts.json'))
     ctx.generated_changed = changed
+    # fact groups whose source shape the extractor no longer recognises: the committed defaults were
+    # used (the model still builds); the obligation is broken for the properties that rest on the group
+    for group, why in sorted((ctx.facts.get('failed') or {}).items()):
+        deps = FACT_DEPS.get(group)
+        if deps is None or ctx.prop in deps:
+            ctx.add_obl('A.fact ' + group, False, 'tools/extract does not recognise the source any more (stale default used): ' + why)
     return True
 
 
